@@ -44,7 +44,8 @@ theorem heff_record_is_projected (i : Nat) (ns : List Nat) (pout pin kb ob brb :
 /-- **The single-site effective Hamiltonian is the projected Hamiltonian `E† H E` (record level).**
 Under the hypotheses of `site_heff_graph`, let the record `bb n` of every cached block be — as a multiset of
 unordered pairs — the sandwich record of the component behind `n`: physical pairs `pout n` / `pin n` and ket /
-operator / bra bonds `kb n` / `ob n` / `brb n`.  Let `E` be ANY well-formed contraction of all ket tensors other
+operator / bra bonds `kb n` / `ob n` / `brb n`.  All records are compared as multisets of UNORDERED pairs (the code
+binds some bonds child-leg-first, some parent-leg-first).  Let `E` be ANY well-formed contraction of all ket tensors other
 than the site's (record: all ket bonds of all components — the ket network without the site is the disjoint union
 of the components), `H` ANY well-formed contraction of the WHOLE operator network (record: the operator bonds at
 the site and inside all components), `B` ANY well-formed contraction of all other bra tensors.  Then every strongly
